@@ -155,7 +155,7 @@ def validate_trace(trace_module, cfg, trace_path, timeout=1800, name=None):
     out = r["out"]
     res = {"accepted": False, "matched": 0, "total": total, "next_event": None, "out": out,
            "states": r["distinct"], "generated": r["generated"], "violated": r["violated"]}
-    m = re.search(r'"TRACE_MISMATCH", "matched", (\d+), "of", (\d+), "next_event", "(.*)">>', out)
+    m = re.search(r'"TRACE_MISMATCH",\s*"matched",\s*(\d+),\s*"of",\s*(\d+),\s*"next_event",\s*"(.*)"\s*>>', out)
     if m:
         res["matched"] = int(m.group(1))
         try:
